@@ -168,7 +168,7 @@ class StrCollector(FileCollector):
 
     def collect(self):
         k = self.ks[self.count % len(self.ks)] if self.ks else 1
-        items = [f"<{self.count}.{j}>" for j in range(int(k) % 4)]
+        items = [f"<{self.count}.{j}>" for j in range(int(k) % 70)]
         self.count += 1
         self.sink.append(items)
         self.records.extend(items)
@@ -177,12 +177,12 @@ class StrCollector(FileCollector):
 def run_file(case):
     model = Model()
     win = case.get("window") or {"start": 0, "end": None, "freq": 1}
-    wc = max(0, min(int(case.get("write_count", 0)), 6))
+    wc = max(0, min(int(case.get("write_count", 0)), 200))
     kw = {"start": int(win["start"]), "frequency": max(1, int(win["freq"]))}
     if win.get("end") is not None:
         kw["end"] = int(win["end"])
     collected = []
-    steps = max(1, min(int(case.get("steps", 5)), 30))
+    steps = max(1, min(int(case.get("steps", 5)), 400))
     with tempfile.TemporaryDirectory(prefix="vf_c17_") as tmp:
         path = os.path.join(tmp, "out.txt")
         coll = StrCollector("fc", model, path, write_count=wc, ks=case.get("ks") or [1], sink=collected, **kw)
@@ -209,7 +209,9 @@ def run_file(case):
     c = len(collected)
     cycles = c // (wc + 1)
     empty_inside = any(len(items) == 0 for items in collected[:cycles * (wc + 1)])
-    return {"nontrivial": cycles >= 2 and wc >= 1 and empty_inside, "labels": ["file", f"wc{min(wc, 3)}{'+' if wc >= 3 else ''}"]}
+    biggest = max((sum(len(i) for i in collected[j:j + wc + 1]) for j in range(0, cycles * (wc + 1), wc + 1)), default=0)
+    return {"nontrivial": cycles >= 2 and wc >= 1 and empty_inside,
+            "labels": ["file", f"wc{min(wc, 3)}{'+' if wc >= 3 else ''}"] + (["flush>=64-records"] if biggest >= 64 else [])}
 
 
 def run_case(case):
@@ -239,7 +241,16 @@ def strategy(tier):
     filec = st.fixed_dictionaries({
         "kind": st.just("file"), "ks": st.lists(st.integers(0, 3), min_size=1, max_size=8), "write_count": st.integers(0, 5),
         "window": win, "steps": st.integers(1, 25)})
-    return wone_of(agent, agent, filec)
+    from vf.fixtures import near_pow2
+    # flushes of dozens of records: block-wise writing only differs from a plain loop at / beyond a block size
+    bigfile = st.one_of(
+        near_pow2(15, 130).map(lambda n: {"kind": "file", "ks": [1], "write_count": n - 1, "window": {"start": 0, "end": None, "freq": 1},
+                                          "steps": 2 * n + 3}),
+        near_pow2(15, 66).flatmap(lambda n: st.fixed_dictionaries({"kind": st.just("file"), "ks": st.just([n, 0, 1]), "write_count": st.sampled_from([0, 1, 3]),
+                                                                   "window": st.just({"start": 0, "end": None, "freq": 1}), "steps": st.integers(4, 12)})),
+        st.builds(lambda k, wc: {"kind": "file", "ks": [k], "write_count": wc, "window": {"start": 0, "end": None, "freq": 1}, "steps": 3 * (wc + 1) + 1},
+                  st.sampled_from([2, 4, 8]), st.sampled_from([7, 15, 31])))
+    return wone_of(*([agent, agent, filec] * 5 + [bigfile]))
 
 
 EXHAUSTIVE_DOMAIN = ("file collector: write_count 0..4 x every pattern of records-per-collection in {0,1,2}^4 (cyclic) over 13 timesteps "
